@@ -245,17 +245,19 @@ def compose {n : Nat} [NeZero n] (c : Cfg) : QOp n → QOp n → Except Err (QOp
   -- the composite-system check is skipped when either operand is a StateEnsemble;
   -- a MultinomialDistribution has no composite_system (AttributeError) -> type error class
   | .gate s1 a, .gate s2 b => if s1 ≠ s2 then .error .sys else .ok (.gate s1 (a.mul b))
-  | .gate s1 a, .mprocess s2 shape _ hss =>
-      if s1 ≠ s2 then .error .sys else mkMProcess s1 shape eps8 (hss.map fun hs => a.mul hs)
-  | .mprocess s1 shape _ hss, .gate s2 b =>
-      if s1 ≠ s2 then .error .sys else mkMProcess s1 shape eps8 (hss.map fun hs => hs.mul b)
-  | .mprocess s1 sh1 _ hss1, .mprocess s2 sh2 _ hss2 =>
-      if s1 ≠ s2 then .error .sys else mkMProcess s1 (sh2 ++ sh1) eps8 (mpMp hss1 hss2)
+  -- the composites keep the measurement process's `eps_zero` (the larger one for M∘M, as M∘StateEnsemble does)
+  | .gate s1 a, .mprocess s2 shape eps hss =>
+      if s1 ≠ s2 then .error .sys else mkMProcess s1 shape eps (hss.map fun hs => a.mul hs)
+  | .mprocess s1 shape eps hss, .gate s2 b =>
+      if s1 ≠ s2 then .error .sys else mkMProcess s1 shape eps (hss.map fun hs => hs.mul b)
+  | .mprocess s1 sh1 e1 hss1, .mprocess s2 sh2 e2 hss2 =>
+      if s1 ≠ s2 then .error .sys
+      else mkMProcess s1 (sh2 ++ sh1) (if e1 < e2 then e2 else e1) (mpMp hss1 hss2)
   | .gate s1 a, .state s2 v => if s1 ≠ s2 then .error .sys else .ok (.state s1 (a.mulVec v))
-  | .gate s1 a, .ensemble s2 states d _ =>
-      -- per state: compose_qoperations(gate, state) (system check there); eps_zero falls back to 1e-8
+  | .gate s1 a, .ensemble s2 states d epsE =>
+      -- per state: compose_qoperations(gate, state) (system check there); the ensemble keeps its eps_zero
       if s1 ≠ s2 ∧ ¬ states.isEmpty then .error .sys
-      else .ok (.ensemble s2 (states.map fun v => a.mulVec v) d eps8)
+      else .ok (.ensemble s2 (states.map fun v => a.mulVec v) d epsE)
   | .mprocess s1 shape eps hss, .state s2 v =>
       if s1 ≠ s2 then .error .sys else mpState c s1 shape eps hss v
   | .mprocess _ shape eps hss, .ensemble s2 states d epsE => mpEnsemble c s2 shape eps hss states d epsE
